@@ -9,8 +9,10 @@ open Atomman Atomman.C10
                                                  inside a unit expression is sent as `%`)
     uc    <via> unit arr [err <error data…>]       (with err: uc.model(value, unit, error=…), reply has eread)
     box   <via> unit <12 rationals: a b c origin>
-    atoms <via> <natoms> <nprops> {<name> unit arr}* [sel <k> {<name> unit}*]   (selection = the prop_unit dict)
-    sys   <via> unit(box) <12 rationals> <3 pbc> <nsym> {sym|-}* <nmass> {mass|-}* <natoms> <nprops> {<name> unit arr}* [sel <k> {<name> unit}*]
+    atoms <via> <natoms> <nprops> {<name> unit arr}* [sel <k> {<name> unit}* | args pn un pu]   (selection = the prop_unit dict)
+          args: the arguments of the model call in the form they were given (resolved by `resolveCall`):
+          pn := - | <k> <name>*      un := - | <k> unit*      pu := - | <k> {<name> unit}*
+    sys   <via> unit(box) <12 rationals> <3 pbc> <nsym> {sym|-}* <nmass> {mass|-}* <natoms> <nprops> {<name> unit arr}* [sel <k> {<name> unit}* | args pn un pu]
     ec    <via> unit <crystal system> <mu|-> <K|-> <36 C>     (mu, K: Hill estimates, `-` when they raise)
     nest  <rank> <dims…> <data…>
     obj   <12 rationals> <natoms> <pos…> {warm | c2r p | r2c p | setv m | seto o | setp <i> <v> | bread <via> unit <12 rationals>
@@ -88,6 +90,34 @@ def pSel : P (String × UnitSpec) := fun ts =>
   match ts with
   | name :: r => (pUnit r).map (fun (u, r1) => ((name, u), r1))
   | _ => none
+
+/-- `-` (argument not given) or `<k> item*`. -/
+def pOptList {α : Type} (p : P α) : P (Option (List α)) := fun ts =>
+  match ts with
+  | [] => none
+  | t :: r =>
+    if t = "-" then some (none, r) else
+    match t.toNat? with
+    | none => none
+    | some k => (pMany p k r).map (fun (xs, r') => (some xs, r'))
+
+/-- the arguments of a model call as given: `prop_name`, `unit`, `prop_unit` (each possibly absent). -/
+structure CallArgs where
+  pn : Option (List String)
+  un : Option (List UnitSpec)
+  pu : Option (List (String × UnitSpec))
+
+def pArgs : P CallArgs := fun ts =>
+  match pOptList pTok ts with
+  | none => none
+  | some (pn, r1) =>
+    match pOptList pUnit r1 with
+    | none => none
+    | some (un, r2) => (pOptList pSel r2).map (fun (pu, r3) => (⟨pn, un, pu⟩, r3))
+
+/-- the unit specs that occur in the arguments (for the factor tables). -/
+def CallArgs.specs (c : CallArgs) : List (Option String × Rat × Rat) :=
+  ((c.un.getD []).map (fun u => (u.unit, u.fW, u.fR))) ++ ((c.pu.getD []).map (fun e => (e.2.unit, e.2.fW, e.2.fR)))
 
 def pOpt : P (Option String) := fun ts =>
   match ts with
@@ -336,6 +366,15 @@ def handleC10 (toks : List String) : String :=
             let a : AtomsM Rat := ⟨n, props.map (fun (nm, _, arr) => (nm, arr))⟩
             reply via (atomsModel fw (sel.map (fun (nm, u) => (nm, u.unit))) a) (atomsRead fr) jAtoms
           | _ => err "format"
+      | some (props, "args" :: r2) =>
+        -- Atoms.model(prop_name=…, unit=…, prop_unit=…) in the form the arguments were given
+        match pArgs r2 with
+        | some (c, []) =>
+          let (fw, fr) := facTabs props c.specs
+          let a : AtomsM Rat := ⟨n, props.map (fun (nm, _, arr) => (nm, arr))⟩
+          reply via (atomsModelCall fw c.pn (c.un.map (·.map (·.unit))) (c.pu.map (·.map (fun e => (e.1, e.2.unit)))) a)
+            (atomsRead fr) jAtoms
+        | _ => err "format"
       | _ => err "format"
     | _, _ => err "format"
   | "sys" :: via :: r =>
@@ -379,6 +418,16 @@ def handleC10 (toks : List String) : String :=
                           reply via (systemModel fw bu.unit (sel.map (fun (nm, u) => (nm, u.unit))) s)
                             (systemRead fr eps) jSys
                         | _ => err "format"
+                    | some (props, "args" :: r6) =>
+                      -- System.model(box_unit, prop_name=…, unit=…, prop_unit=…) in the form the arguments were given
+                      match pArgs r6 with
+                      | some (ca, []) =>
+                        let (fw, fr) := facTabs props ((bu.unit, bu.fW, bu.fR) :: ca.specs)
+                        let s : SystemM Rat := ⟨⟨⟨⟨a, b, c⟩, ⟨d, e, f⟩, ⟨g, h, i⟩⟩, ⟨x, y, z⟩⟩, pbc, syms, masses,
+                          ⟨n, props.map (fun (nm, _, arr) => (nm, arr))⟩⟩
+                        reply via (systemModelCall fw bu.unit ca.pn (ca.un.map (·.map (·.unit)))
+                          (ca.pu.map (·.map (fun e => (e.1, e.2.unit)))) s) (systemRead fr eps) jSys
+                      | _ => err "format"
                     | _ => err "format"
                   | _, _ => err "format"
                 | _ => err "format"
